@@ -90,6 +90,9 @@ func deepEq(w, g reflect.Value, path string) (bool, string) {
 			return false, fmt.Sprintf("%s: pointer nil=%v vs nil=%v (%v)", path, w.IsNil(), g.IsNil(), w.Type())
 		}
 		if !w.IsNil() {
+			if cycleSeen != nil && seenPair(w, g) {
+				return true, ""
+			}
 			return deepEq(w.Elem(), g.Elem(), path+".*")
 		}
 	case reflect.Interface:
@@ -106,6 +109,9 @@ func deepEq(w, g reflect.Value, path string) (bool, string) {
 		if w.Len() != g.Len() { // nil == empty
 			return false, fmt.Sprintf("%s: len %d vs %d", path, w.Len(), g.Len())
 		}
+		if cycleSeen != nil && w.Kind() == reflect.Slice && w.Len() > 0 && seenPair(w, g) {
+			return true, ""
+		}
 		for i := 0; i < w.Len(); i++ {
 			if ok, why := deepEq(w.Index(i), g.Index(i), path+"["+strconv.Itoa(i)+"]"); !ok {
 				return false, why
@@ -114,6 +120,9 @@ func deepEq(w, g reflect.Value, path string) (bool, string) {
 	case reflect.Map:
 		if w.Len() != g.Len() { // nil == empty
 			return false, fmt.Sprintf("%s: map len %d vs %d", path, w.Len(), g.Len())
+		}
+		if cycleSeen != nil && w.Len() > 0 && seenPair(w, g) {
+			return true, ""
 		}
 		if keysHavePointers(w) || keysHavePointers(g) {
 			// pointer identity cannot survive: keys are matched by what they point to
@@ -141,7 +150,14 @@ func deepEq(w, g reflect.Value, path string) (bool, string) {
 		for i := 0; i < w.NumField(); i++ {
 			// unexported fields are not part of the value as far as the serializer is
 			// concerned (eino's own checkpoint types rely on them being skipped)
-			if w.Type().Field(i).PkgPath != "" && !twinMode {
+			if f := w.Type().Field(i); f.PkgPath != "" && !twinMode {
+				// ... but the exported fields that an embedded field of an unexported type
+				// promotes are exported fields of this struct
+				if f.Anonymous {
+					if ok, why := promotedEq(w.Type(), w.Field(i), g.Field(i), []int{i}, path+"."+f.Name); !ok {
+						return false, why
+					}
+				}
 				continue
 			}
 			if ok, why := deepEq(w.Field(i), g.Field(i), path+"."+w.Type().Field(i).Name); !ok {
@@ -156,6 +172,23 @@ func deepEq(w, g reflect.Value, path string) (bool, string) {
 		return false, fmt.Sprintf("%s: kind %v not comparable", path, w.Kind())
 	}
 	return true, ""
+}
+
+// cycleSeen is non-nil only while values that may refer to themselves are compared
+// (cyclic workload): a pair of references that is already being compared is equal
+// as far as this path is concerned (isomorphism of the two graphs).
+var cycleSeen map[[2]uintptr]bool
+
+func seenPair(w, g reflect.Value) bool {
+	k := [2]uintptr{w.Pointer(), g.Pointer()}
+	if w.Kind() == reflect.Slice {
+		k[0] ^= uintptr(w.Len()) << 48
+	}
+	if cycleSeen[k] {
+		return true
+	}
+	cycleSeen[k] = true
+	return false
 }
 
 func fl(f float64) string { return strconv.FormatFloat(f, 'g', -1, 64) }
@@ -747,6 +780,8 @@ func shapeClass(v reflect.Value) string {
 	}
 	if _, base := ptrDepth(t); isSchemaType(base) {
 		return "eino-schema-type"
+	} else if isEinoType(base) {
+		return "eino-component-type"
 	}
 	switch v.Kind() {
 	case reflect.Ptr:
@@ -769,6 +804,9 @@ func shapeClass(v reflect.Value) string {
 		}
 		return "ptr-to-" + category(e.Type())
 	case reflect.Struct:
+		if c := embeddedClass(v); c != "" {
+			return c
+		}
 		if hasUnexported(t) {
 			return "struct-with-unexported-field"
 		}
@@ -818,6 +856,8 @@ func errShapeClass(v reflect.Value) string {
 	_, base := ptrDepth(t)
 	if isSchemaType(base) {
 		return "eino-schema-type"
+	} else if isEinoType(base) {
+		return "eino-component-type"
 	}
 	stripped := func(x reflect.Type) reflect.Type { _, b := ptrDepth(x); return b }
 	switch v.Kind() {
@@ -839,6 +879,8 @@ func errShapeClass(v reflect.Value) string {
 			for b := t.Elem(); ; b = b.Elem() {
 				if isSchemaType(b) {
 					return "eino-schema-type"
+				} else if isEinoType(b) {
+					return "eino-component-type"
 				}
 				if k := b.Kind(); k != reflect.Ptr && k != reflect.Slice && k != reflect.Map && k != reflect.Array {
 					break
